@@ -581,7 +581,8 @@ CtlThroughTry == Running /\ st.c.k \in {"brk", "iter", "ret"} /\ HasF /\ F.f = "
 RetFin == IsVal /\ HasF /\ F.f = "fin" /\ Go([st EXCEPT !.c = F.pending, !.e = F.env, !.k = Pop(st.k)])
 ThrUnwind == Running /\ st.c.k = "thr" /\ HasF /\ F.f # "try" /\ Go([st EXCEPT !.k = Pop(st.k)])
 ThrCatch == Running /\ st.c.k = "thr" /\ HasF /\ F.f = "try" /\
-  Go(LET m == {i \in 1..Len(F.hs) : F.hs[i].exn = st.c.exn} IN
+  \* a handler named "*" is the catch-all clause `true => body` (it also takes the RuntimeError of a halt)
+  Go(LET m == {i \in 1..Len(F.hs) : F.hs[i].exn = st.c.exn \/ F.hs[i].exn = "*"} IN
      IF m = {} THEN RunFin(st.c, F)
      ELSE LET h == F.hs[CHOOSE i \in m : \A j \in m : i <= j]
               b == BindAll(F.env, st.s, h.ps, st.c.vs)
